@@ -151,3 +151,27 @@ def raw_iter_bounded(self: Bytes(cls=CScript)):
     invalid-script error ends it) equals the reference tokenisation, on generated scripts"""
     option(bounded=1500)
     ensures(drain(result) == ref_tokens(self))
+
+
+# ---- building scripts from Python values: integers ------------------------------------------------------------
+@contract('bitcoin.core._bignum:bn2vch', name='bn2vch_num_enc', prop=P)
+def bn2vch_num_enc(v: Int) -> Bytes:
+    """BOUNDED + ASSUMED at call sites: bn2vch is the minimal little-endian sign-magnitude script number"""
+    option(bounded=1500, callable=True, assumed=True)
+    ensures(result == num_enc(v))
+
+
+@contract('bitcoin.core.script:CScript._CScript__coerce_instance', name='coerce_int', prop=P)
+def coerce_int(cls: Const(CScript), other: Int) -> Bytes:
+    """an integer becomes OP_0 / OP_1..OP_16 / OP_1NEGATE for -1..16 and otherwise the shortest push of its
+    minimal script-number encoding"""
+    requires(-2**63 <= other and other < 2**63)
+    option(only=['bn2vch_num_enc'])
+    ensures(result == ite(other == 0, b'\x00', ite(1 <= other and other <= 16, le_bytes(0x50 + other, 1),
+                          ite(other == -1, b'\x4f', push_enc(num_enc(other))))))
+
+
+from pyvc import replay as _replay
+_replay.GENERATORS["bn2vch_num_enc"] = lambda rng: {'v': rng.choice([0, 1, -1, 127, 128, -127, -128, 255, 256, -255, -256, 32767, 32768,
+                                                                      -32768, 2**31 - 1, 2**31, -2**31, 2**63 - 1, -2**63 + 1,
+                                                                      rng.randint(-2**40, 2**40), rng.randint(-70000, 70000)])}
